@@ -148,9 +148,12 @@ class IdealAxiMem:
                 self.events.append((c, 1, 0, dict(c="CMD", p=0, we=True, a=a, t=c)))
                 awq.append([a, (yield axi.aw.id)])
             if (yield axi.w.valid) and w_rdy:
-                if not (yield axi.w.last):
+                # AXI4: a write burst ends with the beat that carries WLAST (every beat of these single-beat bursts). A slave
+                # that goes by the protocol -- LiteDRAM's own AXI bridge does -- completes nothing before it has seen it.
+                if (yield axi.w.last):
+                    wq.append([(yield axi.w.data), (yield axi.w.strb)])
+                else:
                     self.notes["wlast0"] += 1
-                wq.append([(yield axi.w.data), (yield axi.w.strb)])
             while awq and wq:
                 (a, i), (d, m) = awq.pop(0), wq.pop(0)
                 old = self.read(a)
